@@ -26,6 +26,11 @@ Scripted events (all optional):
   sleep_steps   {sleep index: b}   wall stepped back by b during the i-th sleep
   read_steps    {read index: b}    wall stepped back by b just before the i-th read
   stalls        {sleep index: n}   reading frozen during sleeps i .. i+n-1
+  undershoots   {sleep index: u}   the i-th sleep(d) returns early: true time (and the reading) advance
+                                   by max(0, d - u) only (sleep cut short / returned early)
+Per time() CALL (not per property read), for code that may read the clock more than once in one operation:
+  step_at_call(ahead, b)           wall stepped back by b just before the call that is `ahead` calls from now
+  tick                             true time that passes before every call (each reading later than the last)
 Indexes count from `arm()` (called by the harness when the run starts), so the
 same script means the same thing whatever was read before the run.
 """
@@ -40,8 +45,8 @@ class ClockBudgetExceeded(BaseException):
 class FakeClock:
     BASE = 1700000000.0   # integer valued: dyadic offsets stay exact
 
-    def __init__(self, base=None, overshoots=(), sleep_steps=None, read_steps=None, stalls=None,
-                 max_sleeps=100000, max_reads=1000000):
+    def __init__(self, base=None, overshoots=(), sleep_steps=None, read_steps=None, stalls=None, undershoots=None,
+                 max_sleeps=100000, max_reads=1000000, tick=0.0):
         self.base = float(self.BASE if base is None else base)
         self.true = 0.0
         self.offset = 0.0
@@ -50,6 +55,9 @@ class FakeClock:
         self.sleep_steps = {int(k): float(v) for k, v in (sleep_steps or {}).items()}
         self.read_steps = {int(k): float(v) for k, v in (read_steps or {}).items()}
         self.stalls = {int(k): int(v) for k, v in (stalls or {}).items()}
+        self.undershoots = {int(k): float(v) for k, v in (undershoots or {}).items()}
+        self.call_steps = {}      # absolute call index -> backward step applied just before that call
+        self.tick = float(tick)
         self.nsleeps = 0          # since arm()
         self.nreads = 0           # since arm()
         self.armed = False
@@ -62,9 +70,15 @@ class FakeClock:
 
     # ---- what hio sees ---------------------------------------------------
     def time(self):
+        idx = self.total_reads
         self.total_reads += 1
         if self.total_reads > self.max_reads:
             raise ClockBudgetExceeded(f"more than {self.max_reads} clock reads")
+        if self.tick:
+            self.true += self.tick
+        b = self.call_steps.pop(idx, None)
+        if b:
+            self._step(b, "call")
         if self.armed:
             b = self.read_steps.get(self.nreads)
             if b:
@@ -90,6 +104,9 @@ class FakeClock:
             n = self.stalls.get(i)
             if n:
                 self.stall_left = max(self.stall_left, n)
+            under = self.undershoots.get(i)
+            if under:
+                over = -min(under, secs)            # returned early: negative "overshoot"
             self.log.append(("sleep", self.true, secs, over))
             self.true += secs + over
             if self.stall_left > 0:
@@ -137,6 +154,13 @@ class FakeClock:
         self.offset -= b
         self.lost += b
         self.log.append(("step", self.true, b, where))
+
+    def step_at_call(self, ahead, b):
+        """Wall clock set back by b just before the time() call that is `ahead` calls from now (0 = the next call)."""
+        if b < 0 or ahead < 0:
+            raise AssertionError("forward jumps are excluded")
+        k = self.total_reads + int(ahead)
+        self.call_steps[k] = self.call_steps.get(k, 0.0) + float(b)
 
     def peek(self):
         """Current reading without counting as a read of the code under test."""
